@@ -224,7 +224,8 @@ def gen_zip_members(rng, n):
         if rng.chance(1, 5):
             name += "/"
             dirs.append(name)
-            out.append({"name": name, "size": 0, "mode": rng.choice([0o40755, 0o40700, None]),
+            # (a directory member is one whose name ends in `/`, whatever type bits its stored mode carries)
+            out.append({"name": name, "size": 0, "mode": rng.choice([0o40755, 0o40700, None, 0o755, 0o100755]),
                         "date": (rng.choice([1999, 2020, 2024]), rng.range(1, 12), rng.range(1, 28), rng.below(24), rng.below(60), rng.below(30) * 2)})
         else:
             out.append({"name": name, "size": rng.choice([0, 1, 5, 10, 100, 1024]),
